@@ -57,6 +57,8 @@ pub struct Ctx<'a> {
     pub v_mss: Option<u16>,
     /// window field of the victim's bare SYN (active open), valid until its first ACK
     pub v_syn_win: Option<u16>,
+    /// keep-alive is configured on the victim socket (else nothing is ever taken for a keep-alive)
+    pub ka_enabled: bool,
     pub last_v_frames: Vec<Packet>,
 }
 
@@ -98,7 +100,7 @@ impl<'a> Ctx<'a> {
                     }
                     // a keep-alive (one garbage byte before SND.NXT) is discarded by a conformant
                     // receiver without looking at its ACK number and window
-                    let keepalive = t.payload.len() == 1 && !t.has(F_SYN) && !t.has(F_FIN) && seq_lt(t.seq, old_snd_max) && end == old_snd_max && t.payload[0] == 0;
+                    let keepalive = self.ka_enabled && t.payload.len() == 1 && !t.has(F_SYN) && !t.has(F_FIN) && seq_lt(t.seq, old_snd_max) && end == old_snd_max && t.payload[0] == 0;
                     if t.has(F_ACK) && !t.has(F_RST) && !keepalive {
                         self.v_ack = t.ack;
                         let sh = if t.has(F_SYN) { 0 } else { self.shift() };
@@ -266,6 +268,7 @@ pub fn setup<'a>(tape: &'a mut Tape, props: Props, trace_on: bool, mode: Mode) -
         irs,
         v_mss: None,
         v_syn_win: None,
+        ka_enabled: ka.is_some(),
         last_v_frames: vec![],
     };
     (ctx, Setup { v6, rx, tx, mtu, victim_listens, desc })
@@ -518,7 +521,7 @@ fn receiver_body(c: &mut Ctx, su: &Setup, thorough: bool) -> Result<(), Violatio
             8 => {
                 // ---- victim writes a little (so that our ACK field has something to cover)
                 let n = c.tape.size(1, 600) as usize;
-                let buf: Vec<u8> = (0..n as u64).map(|j| stream_byte(vkey, v_written + j)).collect();
+                let buf: Vec<u8> = (0..n as u64).map(|j| stream_byte(vkey, v_written + j) | 1).collect();
                 let r = {
                     let s = c.node.sockets.get_mut::<tcp::Socket>(c.h);
                     guard("tcp::send_slice", || s.send_slice(&buf))?
@@ -823,6 +826,7 @@ fn states_body(c: &mut Ctx, su: &Setup, thorough: bool) -> Result<(), Violation>
         s.set_timeout(None);
         s.set_keep_alive(None);
     }
+    c.ka_enabled = false;
     let mut conn = Conn { v_written: 0, app_read: 0, fin_accepted: false, was_listener: false, t_timewait: 0, t_last_seg: 0, irs: c.irs, key: c.tape.draw(u64::MAX) | 1, closed_in_synrcvd: false };
     let vkey = c.tape.draw(u64::MAX) | 2;
     let nsteps = c.tape.range(10, if thorough { 400 } else { 150 });
@@ -870,13 +874,18 @@ fn states_body(c: &mut Ctx, su: &Setup, thorough: bool) -> Result<(), Violation>
                     }
                     "send" => {
                         let n = c.tape.size(1, 300) as usize;
-                        let buf: Vec<u8> = (0..n as u64).map(|j| stream_byte(vkey, conn.v_written + j)).collect();
+                        let buf: Vec<u8> = (0..n as u64).map(|j| stream_byte(vkey, conn.v_written + j) | 1).collect();
                         let s = c.node.sockets.get_mut::<tcp::Socket>(c.h);
                         if let Ok(k) = guard("tcp::send_slice", || s.send_slice(&buf))? {
                             conn.v_written += k as u64;
                         }
                     }
                     "close" => {
+                        // close() in SYN-RECEIVED is a recorded finding; keep it rare so that it
+                        // does not end too many runs early
+                        if before == SynReceived && !c.tape.chance(1, 8) {
+                            continue;
+                        }
                         let s = c.node.sockets.get_mut::<tcp::Socket>(c.h);
                         guard("tcp::close", || s.close())?;
                         if before == SynReceived {
